@@ -420,6 +420,30 @@ def literal_batches(ctx, quick):
             for opt in (0, 1):
                 b.rd(kind, opt, tok, ",")
     out.append(b)
+    # entity references: ids around and beyond the range of `int` and of 64 bits, values that wrap (mod 2^32, mod 2^64) onto
+    # registered instances, leading zeros, digit strings of every length 1..20
+    b = Batch("reference-ids")
+    regs = [1, 5, 12, 123, 2147483647, 7]
+    ids = {2 ** 31 - 1, 2 ** 31, 2 ** 31 + 1, 2 ** 32 - 1, 2 ** 32, 2 ** 63 - 1, 2 ** 63, 2 ** 64 - 1, 2 ** 64, 10 ** 19, 10 ** 20 - 1}
+    for k in regs:
+        for base in (2 ** 32, 2 ** 33, 3 * 2 ** 32, 2 ** 40, 2 ** 63, 2 ** 64, 2 ** 64 + 2 ** 32, 10 * 2 ** 32):
+            ids.add(base + k)
+        ids.add(2 ** 32 - k)
+        ids.add(k)
+    toks = {f"#{i}" for i in ids}
+    for k in regs:
+        for z in (1, 2, 9, 10, 19, 20, 30):
+            toks.add("#" + "0" * z + str(k))
+    for n in range(1, 21):
+        for dch in "129":
+            toks.add("#" + dch * n)
+        toks.add("#1" + "0" * (n - 1))
+    for tok in sorted(toks, key=lambda x: (len(x), x)):
+        for c in (",", " )"):
+            for opt in (0, 1):
+                b.rd("REF", opt, tok, c)
+        b.rd("REF", 0, "@" + tok[1:], ",")
+    out.append(b)
     # a NUL byte: strchr(",)", 0) != NULL makes CheckRemainingInput take it for a delimiter
     b = Batch("nul-byte")
     for kind in KINDS:
